@@ -542,6 +542,11 @@ def merge_sequences(sequences):
   for seq in sequences:
     cat_seq.MergeFrom(seq)
 
+  # MergeFrom keeps the total_time of the last sequence that sets it; the merged
+  # sequence lasts as long as the longest one.
+  if sequences:
+    cat_seq.total_time = max(seq.total_time for seq in sequences)
+
   # Delete subsequence_info because we've joined several subsequences.
   cat_seq.ClearField('subsequence_info')
   return remove_redundant_data(cat_seq)
